@@ -13,6 +13,6 @@ def queries():
         for n in range(0, nmax + 1):
             if tier == 'thorough' and n <= 5: continue
             # one query per concrete length (a symbolic length ran the SAT back end out of memory at n <= 5)
-            qs.append(Q('b64_seq_n%d_%s' % (n, tier), 'codec.c', 'codecs.cpp', config='small', defs={'OP': 2, 'N': max(n, 1), 'NFIX': n}, unwind=max(4 * ((n + 2) // 3) + 3, 7), heap_cap=24, solver='kissat', tiers=(tier,), bound={'bytes': n}, timeout=600 if tier == 'quick' else 3000))
+            qs.append(Q('b64_seq_n%d_%s' % (n, tier), 'codec.c', 'codecs.cpp', config='small', defs={'OP': 2, 'N': max(n, 1), 'NFIX': n}, unwind=max(4 * ((n + 2) // 3) + 3, 2 * n + 3, 7), heap_cap=24, solver='kissat', tiers=(tier,), bound={'bytes': n}, timeout=600 if tier == 'quick' else 3000))   # the harness compares up to SMAX = 2N characters
             qs.append(Q('hex_seq_n%d_%s' % (n, tier), 'codec.c', 'codecs.cpp', config='small', defs={'OP': 3, 'N': max(n, 1), 'NFIX': n}, unwind=max(2 * n + 3, 7), heap_cap=24, solver='kissat', tiers=(tier,), bound={'bytes': n}, timeout=600 if tier == 'quick' else 3000))
     return qs
